@@ -36,7 +36,11 @@ C09OK(e) ==
              IN
              \/ (Tally("pairs") /\ OIsSome(a) /\ OIsSome(b) /\ QClose(OQ(a), OQ(b), QMul(QPow10Neg(9), tmag)))
              \/ (OIsNone(a) /\ OIsNone(b))
-             \/ Report("early-values-do-not-fade")
+             \* a constant common tail is named separately: a normalised ratio of quantities that all vanish there (LaguerreRSI:
+             \* CU/(CU+CD) of stage differences decaying like gamma^t) has a limit that depends on the past even in exact
+             \* arithmetic - known finding KF2; every other view, and every other tail, must converge
+             \/ Report(IF "tail" \in DOMAIN e /\ e.tail = "constant" THEN "early-values-do-not-fade-on-a-constant-tail"
+                       ELSE "early-values-do-not-fade")
 
 -----------------------------------------------------------------------------
 (* C18 *)
